@@ -57,9 +57,7 @@ def IN_APP_INCLUDE():
     user_defined = os.getenv('DEEP_IN_APP_INCLUDE', None)
     if user_defined is None:
         return []
-    if ',' in user_defined:
-        return user_defined.split(',')
-    return [user_defined]
+    return [path for path in user_defined.split(',') if path]
 
 
 # noinspection PyPep8Naming
@@ -73,9 +71,7 @@ def IN_APP_EXCLUDE():
     if user_defined is None:
         user_defined = []
     else:
-        if ',' in user_defined:
-            user_defined = user_defined.split(',')
-        user_defined = [user_defined]
+        user_defined = [path for path in user_defined.split(',') if path]
 
     prefix = sys.exec_prefix
     user_defined.append(prefix)
